@@ -234,11 +234,11 @@ func c03CLI(c *fw.Ctx, data []byte, kind string) {
 		if o.ii {
 			args = append(args, "-allow-invalid-indents")
 		}
-		cmd := exec.Command("/bin/sh", "-c", "ulimit -t 20; exec \"$0\" \"$@\"", bin)
-		cmd.Args = append(cmd.Args, args...)
-		outB, err := cmd.CombinedOutput()
-		out := string(outB)
+		out, err, okRun := runCLI(c, "cli", map[string]interface{}{"bytes": clip(string(data), 4000), "cli_args": args}, nil, 60, bin, args...)
 		c.Count("cli-decodes", 1)
+		if !okRun {
+			continue
+		}
 		got := "accepted"
 		switch {
 		case CrashedGo(out, err) && strings.Contains(out, "indent is too large"):
